@@ -207,6 +207,15 @@ def sink_rule(crate, body, rep, cfg, counts):
         if any(n in SINK_IDIOMS for n in names) or callee_def(t) in SINK_IDIOMS:
             nxt("idiom")
             continue
+        if callee_def(t) in ("std::option::Option::<T>::expect", "std::option::Option::<T>::unwrap"):
+            # `capture_buffers.last_mut().expect(..)`: navigation to the buffer, writes nothing
+            nxt("idiom")
+            continue
+        if callee_def(t) == "std::option::Option::<T>::map" and len(t["args"]) == 2 and t["args"][1]["k"] == "const" and \
+                str(t["args"][1].get("fn", "")) in ("std::mem::take",):
+            # `capture_buffers.last_mut().map(std::mem::take)`: moves the buffer out, writes nothing
+            nxt("idiom")
+            continue
         if all(k in ("escape_buffer", "block_buffer") for _, k in wk):
             # only reads of the scratch buffers (from_utf8 etc.)
             continue
@@ -473,7 +482,60 @@ def check_esc(crate, rep, cfg):
 
 # ------------------------------------------------------------------------------------------------------------ CFG
 
+def check_suffix_rule(crate, rep, cfg):
+    """C01.CFG — a template is autoescaped iff its registered name ends with one of the configured suffixes, both compared AS THEY ARE: the
+    flag is the result of `suffixes.iter().any(|s| name.ends_with(s))` with `name` the map key itself and `s` the stored suffix — no case
+    folding or other transformation on one side only (a suffix that can then never match silently switches escaping off)."""
+    b = crate.one("tera::Tera::set_templates_auto_escape")
+    rep.analysed(b)
+    tr = Tracer(b)
+    ws = [(bb, idx, st) for bb, idx, st in b.stmts() if idx != "t" and st.get("k") == "assign" and pl_projs(st["pl"])[-1:] == [".autoescape_enabled"]]
+    anys = [(bb, t) for bb, t in b.calls() if callee_def(t).endswith("Iterator::any")]
+    ok = len(ws) == 1 and len(anys) == 1
+    why = "flag assignment / any() call not found"
+    if ok:
+        # the flag is the any() result
+        fl = tr._rv(ws[0][2]["rv"], (), set(), 0, ws[0][0], ws[0][1])
+        ok = bool(fl) and all(l.kind == "call" and l.detail[2] == anys[0][0] for l in fl)
+        why = "the flag is not the result of the suffix search"
+        # the suffixes searched are the stored ones
+        il = tr.operand(anys[0][1]["args"][0])
+        ok = ok and bool(il) and all(l.kind == "call" and l.detail[0].endswith("::iter") for l in il)
+        for l in il:
+            if l.kind == "call":
+                rl = tr.operand(b.term(l.detail[2])["args"][0])
+                ok = ok and bool(rl) and all(x.kind == "param" and x.detail == 1 and ".autoescape_suffixes" in x.projs for x in rl)
+    if ok:
+        cls = [st["rv"]["def"] for b2, i2, st in b.stmts() if i2 != "t" and st.get("k") == "assign" and st["rv"]["k"] == "agg" and st["rv"].get("ak") == "closure"]
+        ok = len(cls) == 1 and cls[0] in crate.bodies
+        why = "suffix predicate closure not found"
+        if ok:
+            cb = crate.bodies[cls[0]]
+            calls = [callee_def(t) for bb, t in cb.calls()]
+            extra = [c for c in calls if not c.endswith(("::deref", "::as_ref", "::as_str", "<impl str>::ends_with", "::borrow"))]
+            ew = [(bb, t) for bb, t in cb.calls() if callee_def(t).endswith("<impl str>::ends_with")]
+            ok = not extra and len(ew) == 1
+            why = "the predicate transforms an operand before comparing: %s" % sorted(set(extra))[:3]
+            if ok:
+                ctr = Tracer(cb)
+                recv = ctr.operand(ew[0][1]["args"][0])
+                pat = ctr.operand(ew[0][1]["args"][1])
+                ok = bool(recv) and all(x.kind == "param" and x.detail == 1 for x in recv) and bool(pat) and all(x.kind == "param" and x.detail == 2 for x in pat)
+                why = "ends_with is not `captured name`.ends_with(`the suffix element`)"
+                # the captured value is the iterated map key
+                ups = cb.j.get("upvars", [])
+                ok = ok and len(ups) == 1
+        if ok:
+            agg = [(b2, i2, st) for b2, i2, st in b.stmts() if i2 != "t" and st.get("k") == "assign" and st["rv"]["k"] == "agg" and st["rv"].get("ak") == "closure"][0]
+            cap = tr.operand(agg[2]["rv"]["ops"][0])
+            ok = bool(cap) and all(x.kind == "call" and x.detail[0].endswith("Iterator::next") and x.projs[:3] == ("as:Some", ".0", ".0") for x in cap)
+            why = "the name compared is not the map key of the template being flagged"
+    rep.add("C01.CFG", "C01.CFG:suffix-rule:plain-ends_with", ok, b.where(ws[0][0]) if ws else b.where(0), "autoescape_enabled = autoescape_suffixes.iter().any(|s| key.ends_with(s)) on the "
+            "template's own map key and the stored suffix, nothing else" + ("" if ok else " — VIOLATED: " + why))
+
+
 def check_cfg(crate, rep, cfg):
+    check_suffix_rule(crate, rep, cfg)
     allowed = {"template::Template::new", "tera::Tera::set_templates_auto_escape", "tera::Tera::render_str_to"}
     n = 0
     for a in field_accesses(crate, "template::Template", "autoescape_enabled"):
